@@ -61,7 +61,7 @@ pub fn toks_text(t: &[String]) -> String {
 }
 
 /// One random token-level mutation. Returns a short description.
-pub fn mutate(toks: &mut Vec<String>, rng: &mut Rng) -> String {
+pub fn mutate(toks: &mut Vec<String>, rng: &mut Rng, nreg: usize) -> String {
     if toks.is_empty() {
         toks.push("u0".into());
         return "push".into();
@@ -73,11 +73,15 @@ pub fn mutate(toks: &mut Vec<String>, rng: &mut Rng) -> String {
     let idents: Vec<usize> = (0..toks.len().saturating_sub(3)).filter(|i| toks[*i] == "findex" && toks[*i + 2] == "fgeneration").collect();
     // last byte of an archetype identifier tuple (`T<k> b.. b.. t`)
     let id_last: Vec<usize> = (1..toks.len().saturating_sub(1)).filter(|i| toks[*i].starts_with('b') && toks[*i + 1] == "t").collect();
-    if !id_last.is_empty() && rng.below(100) < 7 {
+    if !id_last.is_empty() && rng.below(100) < 10 {
         // exactly one (possibly padding) bit in the last identifier byte, alone or on top of the old bits
-        let i = id_last[rng.below(id_last.len() as u64) as usize];
+        // prefer the identifier of the table of entities without components (all bytes 0): there a
+        // lone padding bit is the only thing wrong with the stream
+        let zero: Vec<usize> = id_last.iter().cloned().filter(|i| toks[*i] == "b0" && (toks[*i - 1].starts_with('T') || toks[*i - 1] == "b0")).collect();
+        let i = if !zero.is_empty() && rng.below(10) < 7 { zero[rng.below(zero.len() as u64) as usize] } else { id_last[rng.below(id_last.len() as u64) as usize] };
         let old: u64 = toks[i][1..].parse().unwrap_or(0);
-        let bit = 1u64 << rng.below(8);
+        // half of the time the first padding bit (registry length modulo 8), otherwise any bit
+        let bit = 1u64 << (if nreg % 8 != 0 && rng.below(2) == 0 { (nreg % 8) as u64 } else { rng.below(8) });
         let new = if rng.below(2) == 0 { bit } else { old | bit };
         toks[i] = format!("b{}", new % 256);
         return format!("padbit@{}:{}->{}", i, old, new);
@@ -232,7 +236,7 @@ pub fn build_de<F: Family>(it: &Interp<F>, src: usize, rows: bool, e: u64, mutat
         let mut rng = Rng::new(seed);
         let k = 1 + rng.below(2);
         for _ in 0..k {
-            mutate(&mut text, &mut rng);
+            mutate(&mut text, &mut rng, F::N);
         }
         tag = "-".to_string();
     }
